@@ -73,16 +73,28 @@ func newRace(c Cfg, w *vrt.World) *explore.Instance {
 			}
 			vrt.Spawn("producer", func() {
 				k := 0
+				var sent [][]int
 				for i := 0; i < n; i++ {
-					l := 1 + i%c.J
+					l := 1 + i%(c.J+1)
 					seg := make([]int, l)
 					for x := range seg {
 						seg[x] = k
 						k++
 					}
 					vrt.Send(in, seg)
-					// the producer keeps using its own slice after handing it over only in
-					// copy mode (documented: in no-copy mode oversize slices are forwarded)
+					// in copy mode the producer may keep reading what it sent (the
+					// discipline only reads it); in no-copy mode oversize slices are
+					// forwarded as they are, so it leaves them alone there
+					sent = append(sent, seg)
+					if !c.NoCopy {
+						sum := 0
+						for _, old := range sent {
+							for _, v := range old {
+								sum += v
+							}
+						}
+						_ = sum
+					}
 				}
 				vrt.Close(in)
 			})
